@@ -31,6 +31,9 @@ inductive Ev where
   -- client requests (as they arrive at a broker)
   | produceReq (i p : Nat)              -- a transactional Produce for partition `p`
   | endReq (i : Nat) (c : Bool)         -- an EndTxn
+  -- client side of the connection (observed at `AIOKafkaClient.send`)
+  | regAck (i p : Nat)                  -- the client received the ok reply of AddPartitionsToTxn for `p`
+  | produceSend (i p : Nat)             -- the client hands a transactional Produce for `p` to a connection
   -- what the application sees
   | begin (i : Nat)                     -- begin_transaction() returned
   | accept (i r p : Nat)                -- send() returned a future for record `r` to partition `p`
@@ -51,6 +54,7 @@ structure TSt extends Core where
   fate : Option Bool := none    -- what the coordinator decided about the running transaction
   intent : Option Bool := none  -- commit_transaction (true) / abort_transaction (false) was called
   myOff : Option Nat := none    -- offset acknowledged by send_offsets_to_transaction in the running transaction
+  known : List Nat := []        -- partitions whose AddPartitionsToTxn the client has seen acknowledged in the running transaction
   appGood : List Nat := []      -- acknowledged records of transactions whose commit returned
   appBad : List Nat := []       -- records of transactions whose abort returned, or fenced before a commit decision
   appOff : Option Nat := none   -- offset of the last transaction with offsets whose commit returned
@@ -117,11 +121,23 @@ def tstep (s : TSt) : Ev → Except String TSt
     else if s.intent ≠ some c then .error "client: EndTxn with a result the application did not ask for"
     else if s.unres ≠ [] then .error "client: EndTxn while a batch of the transaction is unacknowledged"
     else .ok s
+  | .regAck i p =>
+    if !s.isLive i then .ok s
+    else if !(s.env.ongoing && decide (p ∈ s.env.parts)) then
+      .error "env: AddPartitionsToTxn acknowledged although the coordinator has not registered the partition"
+    else if !s.inTx then .error "client: AddPartitionsToTxn acknowledged outside a transaction"
+    else .ok { s with known := p :: s.known }
+  | .produceSend i p =>
+    if !s.isLive i then .ok s           -- a zombie does not know it is fenced
+    else if !s.inTx then .error "client: Produce sent outside a transaction"
+    else if p ∉ s.known then
+      .error "client: Produce sent before the acknowledgement of adding the partition reached the client"
+    else .ok s
   | .begin i =>
     if !s.isLive i then .ok s
     else if s.inTx then .error "client: begin_transaction returned inside a transaction"
     else .ok { s with inTx := true, mine := [], app := [], ackd := [], unres := [], fate := none,
-                      intent := none, myOff := none }
+                      intent := none, myOff := none, known := [] }
   | .accept i r _ =>
     if r ≠ s.nRec then .error "env: record ids are assigned in acceptance order"
     else if !s.isLive i then .ok { s with toCore := { s.toCore with nRec := s.nRec + 1 } }   -- a zombie's send
